@@ -913,7 +913,7 @@ def corpus_cases(pid):
                        {"txs": [T("transfer", 200, 3, to=10, amount=str(AERGO), signer=10)]},  # foreign key: must be refused
                        {"txs": [T("transfer", 200, 3, to=10, amount="6", signer=0)]},       # unsigned: must be refused
                        {"txs": [T("transfer", 200, 3, to=10, amount="7", signer=11)]}], "nameforged")
-        # F25: a signed tx whose Account is a name executes twice: as the name's first destination (account
+        # F33 (key keeps the working number F25): a signed tx whose Account is a name executes twice: as the name's first destination (account
         # 10) and, after the owner re-pointed the name to a contract it created, as that contract
         Tt = T("transfer", 200, 3, to=11, amount=str(AERGO), signer=10)
         for mode in ("exec", "chain"):
@@ -944,7 +944,7 @@ def run_check(ctx, pid):
     ctx.assumptions = [
         "balances of the initial state are non-negative, gas price > 0, nonces below 2^64",
         "every executed transaction is sent from a plain (key) account: no code, not the address being created, not aergo.name itself for v1setOwner",
-        "VM oracle discipline (see trusted base); votes / enterprise / multicall / redeploy transactions are outside the Ledger model",
+        "VM oracle discipline (see trusted base); aergo.enterprise logic is an oracle; MULTICALL runs on the implementation only; REDEPLOY, voteDAO, vote tallies are outside the Ledger model",
         "Snapshot/Rollback of the block state restores the saved state (C12 proves the undo log)",
     ]
     binp = build_engine(ctx)
@@ -954,7 +954,7 @@ def run_check(ctx, pid):
     for c in corpus_cases(pid):
         c["id"] = len(cases) + 1
         cases.append(c)
-    nrand = 28 if quick else 700
+    nrand = 24 if quick else 700
     chain_every = {"C01": 5, "C03": 4, "C04": 2}[pid]
     for i in range(nrand):
         mode = "chain" if i % chain_every == chain_every - 1 else "exec"
@@ -1048,7 +1048,7 @@ def run_reward(ctx):
         raise RuntimeError("reward engine build failed:\n" + log[-3000:])
     r = ctx.rng
     cases = []
-    n = 40 if ctx.tier == "quick" else 400
+    n = 30 if ctx.tier == "quick" else 400
     for i in range(n):
         k = r.randint(0, 4)
         voters = []
